@@ -267,4 +267,5 @@ func main() {
 	files := histories(r, rng.Fork())
 	corruptions(r, rng.Fork(), files)
 	bytesStream(r, rng.Fork(), files)
+	multiHandlers(r, rng.Fork())
 }
